@@ -1,10 +1,9 @@
 import UtilModel.Routine.Proofs
 import UtilModel.Routine.Monitors
 /-!
-# routine: observable form of the first clause of C04 under the partial hypothesis
+# routine: observable form of the first clause of C04
 
-`link_run`: along every run that avoids the D16 critical section, the overlap monitor `monC04a` accepts the
-observable trace; the relation `LinkA` ties the monitor's set of executing instances to the model's.
+`link_run`: along every run the overlap monitor `monC04a` accepts the observable trace; the relation `LinkA` ties the monitor's set of executing instances to the model's.
 -/
 namespace UtilModel.Routine
 open UtilModel
@@ -108,7 +107,9 @@ theorem LinkA.move {s : St} {ms : C04St} (h : LinkA s ms) (n : Nat) (x y : Inst)
       · rfl
       · split
         · rfl
-        · split <;> simp
+        · split
+          · rfl
+          · split <;> simp
 
 @[simp] theorem restartCS_ent (s : St) : (restartCS s).1.ent = s.ent := by
   simp only [restartCS]
@@ -166,7 +167,7 @@ theorem apiCS_ent (s : St) (cf : Cfg) (op : Op) (r : St × Res × Option Nat) (h
     · simp at h; subst h; rfl
   | waitExited _ => simp [apiCS] at h
 
-@[simp] theorem timerBody_ent (s : St) (r : Nat) : (timerBody s r).ent = s.ent := by
+@[simp] theorem timerBody_ent (s : St) (t r : Nat) : (timerBody s t r).ent = s.ent := by
   simp only [timerBody, bcastNow_ent]
   split
   · split <;> simp
@@ -480,7 +481,7 @@ theorem link_step (s s' : St) (e : Ev) (ms : C04St) (hl : LinkA s ms) (ha : AllR
       split at hs
       · simp at hs; subst hs
         have hb : CSOK s { s with timers := s.timers.set t { tm with st := .dead } } := CSOK.of_eq rfl rfl
-        exact hl.ext (by simp) (hb.trans (csok_timerBody _ tm.rid)).1
+        exact hl.ext (by simp) (hb.trans (csok_timerBody _ t tm.rid)).1
       · cases hs
     · cases hs
   | probeCtx k b =>
@@ -512,7 +513,7 @@ theorem linkA_init : LinkA {} {} := by
   · intro k k' n h; simp at h
 
 theorem link_run (s0 s : St) (ms0 : C04St) (es : List Ev) (hg : Good s0) (hl : LinkA s0 ms0)
-    (hsafe : SafeRun s0 es) (hr : model.run s0 es = some s) :
+    (hr : model.run s0 es = some s) :
     ∃ ms, monC04a.run ms0 (es.filterMap model.obs) = some ms ∧ LinkA s ms := by
   induction es generalizing s0 ms0 with
   | nil => simp [OLTS.run] at hr; subst hr; exact ⟨ms0, rfl, hl⟩
@@ -523,19 +524,19 @@ theorem link_run (s0 s : St) (ms0 : C04St) (es : List Ev) (hg : Good s0) (hl : L
     | some s1 =>
       simp [hst] at hr
       have hk := step_ok s0 s1 e hg.recs hst
-      have hg1 : Good s1 := ⟨hk.1, (hk.2 hsafe.1).inv hg.chain⟩
+      have hg1 : Good s1 := ⟨hk.1, hk.2.inv hg.chain⟩
       have hstep := link_step s0 s1 e ms0 hl hg.recs hst hg1
       cases hob : Ev.obs e with
       | none =>
         rw [hob] at hstep
-        obtain ⟨ms, h1, h2⟩ := ih s1 ms0 hg1 hstep (hsafe.2 s1 hst) hr
+        obtain ⟨ms, h1, h2⟩ := ih s1 ms0 hg1 hstep hr
         refine ⟨ms, ?_, h2⟩
         have : model.obs e = none := hob
         simpa [List.filterMap_cons, this] using h1
       | some o =>
         rw [hob] at hstep
         obtain ⟨ms1, hm1, hl1⟩ := hstep
-        obtain ⟨ms, h1, h2⟩ := ih s1 ms1 hg1 hl1 (hsafe.2 s1 hst) hr
+        obtain ⟨ms, h1, h2⟩ := ih s1 ms1 hg1 hl1 hr
         refine ⟨ms, ?_, h2⟩
         have : model.obs e = some o := hob
         simp [List.filterMap_cons, this, ObsMonitor.run, hm1, h1]
